@@ -38,6 +38,8 @@ LEVEL_NOTE = "trusted: numpy; the rod's own configuration helpers to build refer
 @st.composite
 def _case(draw):
     rs = draw(rodbuild.rod_spec())
+    if draw(st.integers(0, 3)) == 0:
+        rs["Q_scales"] = [draw(gen.f(0.7, 1.4)) for _ in range(5)]
     return {
         "rod": rs,
         "dr": [draw(gen.f(-1, 1)) for _ in range(9)],
